@@ -79,38 +79,141 @@ Definition Lclean (s : state) (i : nat) : Prop :=
 Definition L1 (s : state) (i : nat) : Prop :=
   srcs (getn s i) = tracked_of (rlog (getn s i)).
 
-(* a memo that is not running: structure part ... *)
-Definition MemoOKc (s : state) (i : nat) : Prop :=
-  match cache (getn s i) with
-  | None => st (getn s i) = Dirty /\ rlog (getn s i) = []
-  | Some _ => st (getn s i) = Clean -> Lclean s i
+(* ---- what a node that is not running owes, as a function of its declaration and fields *)
+Definition hasrun_n (d : decl) (n : node) : bool :=
+  match d with
+  | DEff ERender _ _ => true
+  | DEff _ _ _ => negb (efirst n)
+  | _ => false
   end.
-(* ... and value part *)
-Definition MemoOKv (s : state) (i : nat) : Prop :=
-  cache (getn s i) <> None -> st (getn s i) <> Dirty -> Lcur s i.
+(* its log must show current values: a memo that is not Dirty, an effect that is not dirty *)
+Definition needs_cur_n (d : decl) (n : node) : Prop :=
+  match d with
+  | DMemo _ _ => cache n <> None /\ st n <> Dirty
+  | DEff _ _ _ => ealive n = true /\ hasrun_n d n = true /\ edirty n = false
+  | _ => False
+  end.
+(* its memo sources must all be Clean: a Clean memo, an effect at rest with no notification pending *)
+Definition needs_clean_n (d : decl) (n : node) : Prop :=
+  match d with
+  | DMemo _ _ => cache n <> None /\ st n = Clean
+  | DEff _ _ _ => ealive n = true /\ hasrun_n d n = true /\ edirty n = false /\ eflag n = false /\
+                  emissed n = false /\ epoll n = false
+  | _ => False
+  end.
+(* it will run at the next occasion because a direct source changed *)
+Definition will_run_n (d : decl) (n : node) : Prop :=
+  match d with
+  | DMemo _ _ => cache n <> None /\ st n = Dirty
+  | DEff _ _ _ => ealive n = true /\ hasrun_n d n = true /\ edirty n = true
+  | _ => False
+  end.
+Definition uncached_ok (d : decl) (n : node) : Prop :=
+  match d with
+  | DMemo _ _ => cache n = None -> st n = Dirty /\ rlog n = []
+  | _ => True
+  end.
+(* channel + waker + run queue discipline of a spawned effect that is not in the middle of an
+   iteration of its task loop *)
+Definition queue_ok_n (rdy : list nat) (e : nat) (d : decl) (n : node) : Prop :=
+  match d with
+  | DEff _ _ _ =>
+      ealive n = true -> epoll n = false ->
+      edone n = false /\ (ereg n = false -> In e rdy) /\ (eflag n = true -> ereg n = false) /\
+      (edirty n = true -> eflag n = true \/ emissed n = true) /\
+      (hasrun_n d n = false -> eflag n = true \/ emissed n = true)
+  | _ => True
+  end.
 
-(* [stk] : the nodes whose body is running right now (innermost first).  Nodes not on the
-   stack satisfy their resting clauses; nodes on the stack satisfy the clauses about the
-   reads they have completed, and every source they are subscribed to is either logged or
-   has index >= t (t bounds the top frame from below: it is the read being served). *)
-Record InvW (stk : list nat) (t : nat) (s : state) : Prop := {
+Definition needs_cur (s : state) (i : nat) := needs_cur_n (decl_of p i) (getn s i).
+Definition needs_clean (s : state) (i : nat) := needs_clean_n (decl_of p i) (getn s i).
+Definition will_run (s : state) (i : nat) := will_run_n (decl_of p i) (getn s i).
+Definition queue_ok (s : state) (e : nat) := queue_ok_n (ready s) e (decl_of p e) (getn s e).
+
+(* the fields those predicates (and the log clauses) look at: everything but subs / epaused *)
+Definition nview_eq (n n' : node) : Prop :=
+  sval n' = sval n /\ st n' = st n /\ cache n' = cache n /\ rlog n' = rlog n /\ srcs n' = srcs n /\
+  since n' = since n /\ edirty n' = edirty n /\ eflag n' = eflag n /\ ereg n' = ereg n /\
+  efirst n' = efirst n /\ ealive n' = ealive n /\ edone n' = edone n /\ emissed n' = emissed n /\
+  epoll n' = epoll n.
+Lemma nview_eq_refl n : nview_eq n n. Proof. unfold nview_eq; intuition. Qed.
+
+Lemma needs_cur_view d n n' : nview_eq n n' -> needs_cur_n d n' -> needs_cur_n d n.
+Proof.
+  unfold nview_eq, needs_cur_n, hasrun_n. intros (?&?&?&?&?&?&?&?&?&?&?&?&?&?).
+  destruct d as [| | |k ? ?]; auto; [|destruct k]; intuition congruence.
+Qed.
+Lemma needs_clean_view d n n' : nview_eq n n' -> needs_clean_n d n' -> needs_clean_n d n.
+Proof.
+  unfold nview_eq, needs_clean_n, hasrun_n. intros (?&?&?&?&?&?&?&?&?&?&?&?&?&?).
+  destruct d as [| | |k ? ?]; auto; [|destruct k]; intuition congruence.
+Qed.
+Lemma will_run_view d n n' : nview_eq n n' -> will_run_n d n' -> will_run_n d n.
+Proof.
+  unfold nview_eq, will_run_n, hasrun_n. intros (?&?&?&?&?&?&?&?&?&?&?&?&?&?).
+  destruct d as [| | |k ? ?]; auto; [|destruct k]; intuition congruence.
+Qed.
+Lemma uncached_ok_view d n n' : nview_eq n n' -> uncached_ok d n -> uncached_ok d n'.
+Proof.
+  unfold nview_eq, uncached_ok. intros (E0&E1&E2&E3&_).
+  destruct d; auto. intros H Hc. rewrite E2 in Hc. destruct (H Hc). split; congruence.
+Qed.
+Lemma queue_ok_view rdy e d n n' : nview_eq n n' -> queue_ok_n rdy e d n -> queue_ok_n rdy e d n'.
+Proof.
+  unfold nview_eq, queue_ok_n, hasrun_n. intros (E0&E1&E2&E3&E4&E5&E6&E7&E8&E9&E10&E11&E12&E13).
+  destruct d as [| | |k ? ?]; auto. intros H Ha Hp.
+  rewrite E10 in Ha. rewrite E13 in Hp. specialize (H Ha Hp).
+  rewrite E6, E7, E8, E9, E11, E12. exact H.
+Qed.
+
+(* the fields the queue discipline looks at *)
+Definition qview_eq (n n' : node) : Prop :=
+  edirty n' = edirty n /\ eflag n' = eflag n /\ ereg n' = ereg n /\ efirst n' = efirst n /\
+  ealive n' = ealive n /\ edone n' = edone n /\ emissed n' = emissed n /\ epoll n' = epoll n.
+Lemma qview_eq_refl n : qview_eq n n. Proof. unfold qview_eq; intuition. Qed.
+Lemma nview_qview n n' : nview_eq n n' -> qview_eq n n'.
+Proof. unfold nview_eq, qview_eq. intuition. Qed.
+Lemma queue_ok_qview rdy e d n n' : qview_eq n n' -> queue_ok_n rdy e d n -> queue_ok_n rdy e d n'.
+Proof.
+  unfold qview_eq, queue_ok_n, hasrun_n. intros (E6&E7&E8&E9&E10&E11&E12&E13).
+  destruct d as [| | |k ? ?]; auto. intros H Ha Hp.
+  rewrite E10 in Ha. rewrite E13 in Hp. specialize (H Ha Hp).
+  rewrite E6, E7, E8, E9, E11, E12. exact H.
+Qed.
+
+(* everything a node that is not running owes *)
+Definition Rest (s : state) (i : nat) : Prop :=
+  L1 s i /\
+  uncached_ok (decl_of p i) (getn s i) /\
+  (needs_cur s i -> Lcur s i) /\
+  (needs_clean s i -> Lclean s i) /\
+  (will_run s i -> since (getn s i) <> []).
+
+(* a node whose body is running: the reads it has completed are current and Clean, and every
+   source it is subscribed to is logged or is the one being read right now (index >= t); a
+   running effect is not marked dirty by what its own run pulls *)
+Definition Frame (t : nat) (s : state) (k : nat) : Prop :=
+  Lcur s k /\ Lclean s k /\
+  (forall x, In x (srcs (getn s k)) -> In x (tracked_of (rlog (getn s k))) \/ t <= x) /\
+  t <= k /\ k < length p /\ (memob k = true -> st (getn s k) <> Clean) /\
+  (effb k = true -> edirty (getn s k) = false).
+
+(* [stk] : the nodes whose body is running right now (innermost first); [t] bounds the top
+   frame from below: it is the index of the read being served *)
+Record Inv (stk : list nat) (t : nat) (s : state) : Prop := {
   inv_wf : WF s;
   inv_err : err s = false;
-  inv_l1 : forall i, ~ In i stk -> L1 s i;
-  inv_memo_c : forall i, memob i = true -> ~ In i stk -> MemoOKc s i;
-  inv_run_cur : forall k, In k stk -> Lcur s k;
-  inv_run_clean : forall k, In k stk -> Lclean s k;
-  inv_run_src : forall k x, In k stk -> In x (srcs (getn s k)) ->
-                In x (tracked_of (rlog (getn s k))) \/ t <= x;
-  inv_run_ge : forall k, In k stk -> t <= k;
-  inv_run_range : forall k, In k stk -> k < length p;
-  inv_run_nc : forall k, In k stk -> memob k = true -> st (getn s k) <> Clean
+  inv_nocause : nocause s = 0;
+  inv_rest : forall i, ~ In i stk -> Rest s i;
+  inv_queue : forall e, queue_ok s e;
+  inv_frame : forall k, In k stk -> Frame t s k
 }.
 
-Record Inv (stk : list nat) (t : nat) (s : state) : Prop := {
-  inv_w : InvW stk t s;
-  inv_memo_v : forall i, memob i = true -> ~ In i stk -> MemoOKv s i
-}.
+(* kinds *)
+Lemma memob_decl i : memob i = true -> exists c e, decl_of p i = DMemo c e.
+Proof. unfold memob. destruct (decl_of p i); try discriminate. eauto. Qed.
+Lemma effb_decl i : effb i = true -> exists k b h, decl_of p i = DEff k b h.
+Proof. unfold effb. destruct (decl_of p i); try discriminate. eauto. Qed.
 
 (* ---------------------------------------------------------------- what marking may change *)
 Definition st_le (a b : nstate) : Prop :=
@@ -131,7 +234,7 @@ Lemma st_le_dirty a : st_le Dirty a -> a = Dirty. Proof. destruct a; cbn; tauto.
 Definition same_core (n n' : node) : Prop :=
   sval n' = sval n /\ subs n' = subs n /\ cache n' = cache n /\ srcs n' = srcs n /\
   rlog n' = rlog n /\ since n' = since n /\ efirst n' = efirst n /\ epaused n' = epaused n /\
-  ealive n' = ealive n /\ edone n' = edone n /\ emissed n' = emissed n.
+  ealive n' = ealive n /\ edone n' = edone n /\ emissed n' = emissed n /\ epoll n' = epoll n.
 Lemma same_core_refl n : same_core n n.
 Proof. unfold same_core; intuition. Qed.
 Lemma same_core_trans a b c : same_core a b -> same_core b c -> same_core a c.
